@@ -1107,6 +1107,12 @@ class MutableFileVersion:
         # We'll need the segment that the data starts in, regardless of
         # what we'll do later.
         start_segment = offset // segsize
+        if offset == self.get_size() and offset % segsize == 0 and start_segment > 0:
+            # Appending exactly at a segment boundary: there is no
+            # partial segment to merge the new data with, and no segment
+            # with this number to fetch. The last existing segment stands
+            # in for it; its contents are not used.
+            start_segment -= 1
 
         # We only need the end segment if the data we append does not go
         # beyond the current end-of-file.
